@@ -145,9 +145,13 @@ WalkView(t)   == [p \in Paths |-> IF Walkable(t, p) THEN t[p].k ELSE None]
 VARIABLES img, cur
 vars == <<img, cur>>
 
-\* a layer is a consistent snapshot diff, as every image builder produces them
+\* a file entry at or above the byte limit is skipped by the loader: it is not part of the layer (C10)
+Keep(e) == ~(Limit > 0 /\ ((e.kind = "f1" /\ 1 >= Limit) \/ (e.kind = "f2" /\ 2 >= Limit)))
+\* a layer is a consistent snapshot diff, as every image builder produces them; under a byte limit a path may
+\* additionally occur twice when exactly one of the two entries is below the limit (the oversize one does not count)
 NoDupPaths(layer) == \A i, j \in DOMAIN layer : i # j =>
-                        /\ ~(layer[i].path = layer[j].path /\ IsAdd(layer[i].kind) /\ IsAdd(layer[j].kind))
+                        /\ ~(layer[i].path = layer[j].path /\ IsAdd(layer[i].kind) /\ IsAdd(layer[j].kind)
+                             /\ ~(Limit > 0 /\ Keep(layer[i]) # Keep(layer[j])))
                         /\ layer[i] # layer[j]
 NoMarkerUnderWhiteout(layer) == \A i, j \in DOMAIN layer :
      (layer[i].kind = "wh" /\ layer[j].kind \in {"wh", "opq"} /\ i # j) =>
@@ -158,8 +162,6 @@ OpaqueOnlyOnDir(layer) == \A i, j \in DOMAIN layer :
      (layer[i].kind = "opq" /\ i # j /\ layer[j].path = layer[i].path) => layer[j].kind = "dir"
 GoodLayer(l) == NoDupPaths(l) /\ NoMarkerUnderWhiteout(l) /\ NothingUnderNonDir(l) /\ OpaqueOnlyOnDir(l)
 
-\* a file entry at or above the byte limit is skipped by the loader: it is not part of the layer (C10)
-Keep(e) == ~(Limit > 0 /\ ((e.kind = "f1" /\ 1 >= Limit) \/ (e.kind = "f2" /\ 2 >= Limit)))
 Eff(im) == [i \in 1..Len(im) |-> SelectSeq(im[i], Keep)]
 
 Init == img = <<>> /\ cur = <<>>
